@@ -535,6 +535,11 @@ class Analysis:
             return v
         if k == "bin":
             self._bin_facts = st.facts if (rv["op"] in ("Add", "Sub", "Mul") and is_int_ty(lhs_ty) and not lhs_ty["n"].startswith("i")) else None
+            if rv["op"] in ("AddWithOverflow", "SubWithOverflow", "MulWithOverflow"):
+                # what the flag of this checked operation is about (for rules that ask whether the overflow panic is reachable)
+                oa, ob = self.operand(st, rv["a"]), self.operand(st, rv["b"])
+                ot = self.operand_ty(rv["a"])
+                self.__dict__.setdefault("ovf_ops", {})[site] = (rv["op"][:3], self.as_poly(oa), self.as_poly(ob), ot.get("n") if isinstance(ot, dict) and ot.get("k") == "prim" else None)
             try:
                 return self.binop(rv["op"], self.operand(st, rv["a"]), self.operand(st, rv["b"]), site)
             finally:
@@ -765,6 +770,12 @@ class Analysis:
             if p and k is not None and targs:
                 d = k * te.size(targs[0])
                 return ("P", p[1], p[2] - d if fn.endswith("::sub") else p[2] + d, None)
+        if fn.startswith(("core::ptr::const_ptr::<impl *const T>::byte_", "core::ptr::mut_ptr::<impl *mut T>::byte_")) and fn.split("::")[-1] in ("byte_add", "byte_sub", "byte_offset"):
+            # the same in bytes
+            p = ptr()
+            k = self.as_poly(args[1]) if len(args) > 1 else None
+            if p and k is not None:
+                return ("P", p[1], p[2] - k if fn.endswith("byte_sub") else p[2] + k, None)
         if fn in ("core::slice::from_raw_parts", "core::slice::from_raw_parts_mut",
                   "core::ptr::slice_from_raw_parts", "core::ptr::slice_from_raw_parts_mut"):
             p = ptr()
